@@ -13,4 +13,9 @@ AUTH = dict(
            dict(name="chain_k3", tier="thorough", defs={"VF_K": 3, "VF_ISSUER": 0})],
 )
 HARNESSES = [AUTH]
-PROPERTY = dict(level="model_checking", explanation="", bounds="", outside="", assumptions=[])
+PROPERTY = dict(level='model_checking',
+    claim='psX509AuthenticateCert leaves a certificate PS_CERT_AUTH_PASS only if the issuer is a CA, names chain, it is not revoked, its signature was verified with the issuer key over its own TBS digest (verify stub consulted with exactly these arguments and said yes), key ids agree, issuer may sign, inside validity - or subject and issuer are the same certificate; conversely a chain meeting the rules is accepted.',
+    bounds='1 subject + issuer, chains of 1-2 (thorough 3) certificates; signatures <= 4 bytes, key ids <= 3 bytes',
+    outside='matrixValidateCertsExt chain walk / path length (C03.b), CRL lookup, parse-time checks, the signature mathematics (C11)',
+    explanation='psX509AuthenticateCert leaves a certificate PS_CERT_AUTH_PASS only if the issuer is a CA, names chain, it is not revoked, its signature was verified with the issuer key over its own TBS digest (verify stub consulted with exactly these arguments and said yes), key ids agree, issuer may sign, inside validity - or subject and issuer are the same certificate; conversely a chain meeting the rules is accepted.',
+    assumptions=[])
